@@ -169,6 +169,8 @@ TEXTS = {
                 "in file order, no ORPHA records from v1 / v2 — relative to bin_sections / parse_parents / parse_records, the reading of "
                 "the layout), C08_accepted_file_is_wellformed (exact caches, children = parents^-1, acyclic, inherited annotation sets, "
                 "IC = calculate(N, n)), C08_record_order_irrelevant, C08_accepted_file_reserialises, C08_conditions_satisfiable. "
+                "The older layouts: C08_layout_v2_is_honoured and C08_layout_v1_is_honoured (from_bytes on a v2 / v1 file of any ontology the "
+                "layout can carry is the Builder pipeline on exactly the facts in the file; v2 decodes like v3 without ORPHA). "
                 "Executed additionally: files produced by an independent encoder (harness/src/bin.rs) at EVERY truncation offset, with "
                 "suffixes, foreign version bytes and 12-24 single-byte mutants each (whole outcome compared; the evaluator decode_g is "
                 "proved equal to decode), and spec_C08 on the crate's observation.",
